@@ -3,6 +3,8 @@
   Statements only; proofs are in Proofs/C35.lean.  `sumInt` is the sum of a list of integers.
 -/
 import Goloop.Proofs.C35
+import Goloop.Proofs.C35Input
+import Goloop.Proofs.C35Voters
 namespace Goloop.C35
 open Proofs
 
@@ -97,17 +99,115 @@ theorem voter_accumulation_identity (i : Input) (v k : Nat) :
       evSum k (i.offsetLimit : Int) (eventsOf i.events v) :=
   voterAV_votesTo i v k
 
-/-- FULL STATEMENT (what the property asks): for every input (voting history of a term) for which
-    `Calculate` succeeds, the total I-Score credited is at most the term's budget.
-    PARTIAL: proved under `TermWF i`, five facts about the state *after* `processEvents`
-    (non-negative accumulated power of the elected, valid commission rates, owners distinct,
-    at most `electedPRepCount` ranked entries, non-negative funds, and — the consistency of the
-    reward database — for every rewardable P-Rep the voters' accumulated votes add up to at most
-    its `accumulatedVoted > 0`).  These are not derived from the raw input here; the per-P-Rep
-    part is `accumulation_identities`, the rest is checked at run time by the oracle. -/
-theorem total_credited_le_budget_partial (i : Input) (r : Result) (hcalc : calculate i = some r)
+/-- The bound under hypotheses on the state *after* `processEvents` (`TermWF`: non-negative
+    accumulated power of the elected, valid commission rates, distinct owners, at most
+    `electedPRepCount` ranked entries, non-negative funds, and for every rewardable P-Rep the voters'
+    accumulated votes add up to at most its `accumulatedVoted > 0`).  `TermWF` is *derived* from the
+    raw input by `state_wf_of_input_wf`; the end-to-end statement is `total_credited_le_budget`. -/
+theorem total_credited_le_budget_of_state_wf (i : Input) (r : Result) (hcalc : calculate i = some r)
     (wf : TermWF i) : r.totalCredited ≤ i.budget :=
   total_le_budget i r hcalc wf
+
+/-- **(i) P-Rep side bookkeeping through the map `preps[owner]`** (`setPRep`/`getPRep`), for every
+    input and every address `k`, no hypotheses: after `processEvents` the entry of `k` (`entryOf`: the
+    entry stored for `k`, or the zero entry `ApplyVote` would create) is — up to its status, which
+    only `SetStatus` touches — the entry `loadPRepInfo` had for `k` with `PRep.ApplyVote` applied once
+    per vote to `k` in the event list, in order, with period `offsetLimit − offset`
+    (`voteEvents k` = those votes as `(isBond, amount, offset)`).  In particular
+    `accumulatedVoted(k) = accumulatedVoted₀(k) + Σ amount·(L − offset)`. -/
+theorem prep_side_bookkeeping (i : Input) (k : Nat) :
+    (∃ s, entryOf (prepInfoAfterEvents i) k =
+      setSt s (runVotes (i.offsetLimit : Int) i.br (entryOf (loadPRepInfo i) k) (voteEvents k i.events))) ∧
+    (entryOf (prepInfoAfterEvents i) k).accVoted = (entryOf (loadPRepInfo i) k).accVoted +
+      sumInt ((voteEvents k i.events).map (fun e => e.2.1 * ((i.offsetLimit : Int) - e.2.2))) := by
+  obtain ⟨s, hs⟩ := entryOf_events k i.events (loadPRepInfo i)
+  have hc := cfg_load i
+  simp only [cfg, Prod.mk.injEq] at hc
+  rw [hc.2.1, hc.2.2] at hs
+  have he : entryOf (prepInfoAfterEvents i) k = entryOf (i.events.foldl applyEvent (loadPRepInfo i)) k := rfl
+  rw [he]
+  refine ⟨⟨s, hs⟩, ?_⟩
+  rw [hs]
+  exact runVotes_accVoted _ _ _ _
+
+/-- **(ii) summation over the voter set**: if the Delegating and the Bonding records have one entry
+    per voter, then for every address `k` the accumulated votes of all voters `processVoterReward`
+    visits (`allVotes`) add up to `baseVotes k · (L+1)` (the voters' base delegation + bond to `k`)
+    plus Σ amount·(L − offset) over *all* votes to `k` in the event list — every event is counted for
+    exactly one voter, its sender — i.e. exactly what (i) adds to `accumulatedVoted(k)`. -/
+theorem voters_total_eq_events (i : Input) (k : Nat) (hd : (i.delegating.map (·.1)).Nodup)
+    (hb : (i.bonding.map (·.1)).Nodup) :
+    votesTo k (allVotes i) = baseVotes i k * ((i.offsetLimit : Int) + 1) +
+      sumInt ((voteEvents k i.events).map (fun e => e.2.1 * ((i.offsetLimit : Int) - e.2.2))) :=
+  votesTo_allVotes i k hd hb
+
+/-- (i)+(ii): for every address `k` the gap between the P-Rep's `accumulatedVoted` and what all
+    voters together accumulated for `k` is the same after the events as in the loaded state — every
+    vote event adds the same amount·(L − offset) on both sides.  So Σ_voters = `accumulatedVoted(k)`
+    exactly when the loaded state is exactly consistent, and Σ_voters ≤ `accumulatedVoted(k)` whenever
+    `baseVotes k·(L+1) ≤ accumulatedVoted₀(k)`. -/
+theorem voted_minus_voters_conserved (i : Input) (k : Nat) (hd : (i.delegating.map (·.1)).Nodup)
+    (hb : (i.bonding.map (·.1)).Nodup) :
+    (entryOf (prepInfoAfterEvents i) k).accVoted - votesTo k (allVotes i) =
+      (entryOf (loadPRepInfo i) k).accVoted - baseVotes i k * ((i.offsetLimit : Int) + 1) := by
+  rw [(prep_side_bookkeeping i k).2, voters_total_eq_events i k hd hb]
+  omega
+
+/-- **(iii) the state after `processEvents` is well-formed whenever the raw input is**: all of
+    `TermWF` — clean reward fields, non-negative accumulated power of the elected, commission rates
+    in range, distinct owners, at most `electedPRepCount` entries ranked below it, non-negative funds,
+    `accumulatedVoted > 0` and Σ_voters accumulated votes ≤ `accumulatedVoted` for every rewardable
+    P-Rep — follows from the decidable predicate `InputWF` on the reward database and the event list
+    (see its definition in Proofs/C35Input.lean). -/
+theorem state_wf_of_input_wf (i : Input) (wf : InputWF i) : TermWF i := termWF_of_inputWF i wf
+
+/-- **Rewards never exceed the term's budget.**  For every input (base reward database + event
+    list of one term) that satisfies `InputWF` and for which `iiss4Reward.Calculate` succeeds, the
+    total I-Score credited to P-Reps and voters is at most
+    `fundToPeriodIScore(Iprep) + fundToPeriodIScore(Iwage)`.
+    `InputWF i` is a decidable condition on the RAW input only:
+    `0 ≤ br`, `0 ≤ iglobal`, `0 ≤ iprep`, `0 ≤ iwage`; one Voted record per owner, commission rate in
+    [0, 10000]; one Delegating / one Bonding record per voter; vote-event offsets non-decreasing and
+    ≤ `offsetLimit`; for every possible P-Rep address the running totals `bonded` and
+    `delegated+bonded` (Voted record + the votes of the event list, in order) never go negative;
+    Σ_voters (base delegation + bond to `k`) ≤ `delegated+bonded` of `k`'s Voted record (0 if none).
+    (The last two are conditions on the aggregated vote data; `input_wf_of_database_wf` derives them
+    from per-voter conditions and the success of `UpdateVoting`, giving
+    `total_credited_le_budget_consistent_db`.) -/
+theorem total_credited_le_budget (i : Input) (r : Result) (hcalc : calculate i = some r)
+    (wf : InputWF i) : r.totalCredited ≤ i.budget :=
+  total_le_budget i r hcalc (termWF_of_inputWF i wf)
+
+/-- `Delegating.ApplyVotes` / `Bonding.ApplyVotes` on well-formed records (one entry per target, no
+    negative amount; deltas name each target once): when it succeeds the result is well-formed and for
+    every target the new amount is the old amount plus the delta. -/
+theorem apply_votes_adds_deltas (cur ds res : Votes) (hc : VotesOk cur) (hds : (ds.map (·.1)).Nodup)
+    (h : applyVotes cur ds = some res) :
+    VotesOk res ∧ ∀ k, votesTo k res = votesTo k cur + votesTo k ds :=
+  applyVotes_spec cur ds res hc hds h
+
+example : VotesOk [(0, 100), (1, 50)] ∧ ([((0:Nat), (-40:Int)), (1, 40)].map (·.1)).Nodup ∧
+    applyVotes [(0, 100), (1, 50)] [(0, -40), (1, 40)] = some [(0, 60), (1, 90)] :=
+  ⟨⟨by decide, by decide⟩, by decide, by decide⟩
+
+/-- The aggregated conditions of `InputWF` (running Voted totals never negative; Voted ≥ what the
+    voters hold) follow from `DatabaseWF` — per-voter conditions on the raw reward database: every
+    Delegating / Bonding record has one entry per target and no negative amount, every vote event
+    names each target once, and per address Σ_voters delegation ≤ `delegated`, Σ_voters bond ≤ `bonded`
+    of the Voted record — together with the success of `VoteEvents.UpdateVoting` for every event
+    sender (which `Calculate` checks itself: it returns an error otherwise). -/
+theorem input_wf_of_database_wf (i : Input) (wf : DatabaseWF i)
+    (hs : (eventSenders i.events).all (updateVotingOk i) = true) : InputWF i :=
+  inputWF_of_databaseWF i wf hs
+
+/-- **Rewards never exceed the term's budget, for every well-formed reward database.**  If the base
+    reward database and the event list of the term satisfy `DatabaseWF` (decidable, raw input only,
+    per-record conditions — see `input_wf_of_database_wf`) and `iiss4Reward.Calculate` succeeds, the
+    total I-Score credited is at most the term's budget. -/
+theorem total_credited_le_budget_consistent_db (i : Input) (r : Result) (hcalc : calculate i = some r)
+    (wf : DatabaseWF i) : r.totalCredited ≤ i.budget :=
+  total_le_budget i r hcalc
+    (termWF_of_inputWF i (inputWF_of_databaseWF i wf (calculate_senders_ok i r hcalc)))
 
 
 /-! ### non-vacuity: a concrete term satisfying all hypotheses, with non-zero rewards -/
@@ -129,6 +229,15 @@ example : PRepWF (prepInfoAfterEvents exInput) :=
 
 example : TermWF exInput :=
   ⟨⟨by decide, by decide, by decide, by decide, by decide⟩, by decide, by decide, by decide, by decide⟩
+
+/-- non-vacuity of `InputWF`: the raw input above (two P-Reps, a delegator, a bonder, one
+    re-delegation event; non-zero rewards) satisfies it -/
+example : InputWF exInput := by decide
+
+/-- non-vacuity of `DatabaseWF` -/
+example : DatabaseWF exInput := by decide
+
+example : (exInput.delegating.map (·.1)).Nodup ∧ (exInput.bonding.map (·.1)).Nodup := by decide
 
 example : ValidFrom 9 500 (-1)
     { owner := 0, status := 0, delegated := 100, bonded := 20, rate := 0, pubkey := true, power := 120, accPower := 1200 }
